@@ -39,6 +39,9 @@ def outgoing_contract(name, has_buffer):
                                                      "and unchanged('ghost.wdom', 'ghost.wcnt'))"))
         ens.append(P("C12/buffer-untouched-when-written", "implies(not parks, same_dict(message_buffer.set_messages))"))
         ens.append(H("C12/internal-buffer-untouched", "same_dict(message_buffer.internal_messages)"))
+        ens.append(P("C09+C12/guarantee-messages-not-mutated", "unchanged('Message.node_id', 'Message.child_id', 'Message.command', 'Message.ack', "
+                                                               "'Message.message_type', 'Message.payload')"))
+        ens.append(P("C09/guarantee-entries-only-added-or-replaced", "forall(lambda q: implies(old(q in message_buffer.set_messages), q in message_buffer.set_messages), 'key3')"))
         te.append(H("C12/failed-buffers-untouched", "same_dict(message_buffer.set_messages, message_buffer.internal_messages)"))
     ct = Contract(OUT14 + name,
                   params={"cls": "cls", "gateway": GW, "message": MSG, "message_buffer": buf, "decoded_message": TStr},
